@@ -302,22 +302,21 @@ func (fx *FnExec) subRef(structT types.Type, field int, ref *Term) *Term {
 	return t
 }
 
-// subNonNil: interior objects are never the nil reference.
+// subNonNil: ground facts for a closed interior reference: never nil, interior (distinct from
+// every top-level allocation), injective (owner / indexOf), rooted where its owner is rooted.
 func (fx *FnExec) subNonNil(t *Term) {
 	if fx.subSeen == nil {
 		fx.subSeen = map[*Term]bool{}
 	}
-	if fx.subSeen[t] {
+	if fx.subSeen[t] || fx.noAssume {
 		return
 	}
 	fx.subSeen[t] = true
 	c := fx.c
 	if t.open {
-		return // interior reference formed under a quantifier: no facts are instantiated for it
+		return // formed under a quantifier: see interiorAxioms for the symbol-level version
 	}
 	fx.assumeGlobal(c.Not(c.Eq(t, fx.nilRef())))
-	// interior objects are distinct from freshly allocated top-level objects, and the
-	// functions forming them are injective
 	fx.assumeGlobal(c.App("interior", BoolSort, t))
 	fx.assumeGlobal(c.Eq(c.App("owner", RefSort, t), t.Args[0]))
 	fx.assumeGlobal(c.Eq(c.App("rootOf", RefSort, t), c.App("rootOf", RefSort, t.Args[0])))
@@ -325,6 +324,40 @@ func (fx *FnExec) subNonNil(t *Term) {
 	if len(t.Args) == 2 {
 		fx.assumeGlobal(c.Eq(c.App("indexOf", BV(64), t), t.Args[1]))
 	}
+}
+
+// interiorAxioms emits the quantified (symbol-level) version of the interior-reference facts for
+// one function symbol; used where references under quantifiers must be reasoned about
+// (element-wise copies of struct slices).
+func (fx *FnExec) interiorAxioms(name string, arity int) {
+	if fx.symSeen == nil {
+		fx.symSeen = map[string]bool{}
+	}
+	if fx.symSeen[name] || fx.noAssume {
+		return
+	}
+	fx.symSeen[name] = true
+	c := fx.c
+	x := c.BoundVarNamed("x@ax."+name, RefSort)
+	var app *Term
+	bound := []*Term{x}
+	if arity == 2 {
+		i := c.BoundVarNamed("i@ax."+name, BV(64))
+		bound = append(bound, i)
+		app = c.App(name, RefSort, x, i)
+	} else {
+		app = c.App(name, RefSort, x)
+	}
+	facts := []*Term{
+		c.Not(c.Eq(app, fx.nilRef())),
+		c.App("interior", BoolSort, app),
+		c.Eq(c.App("owner", RefSort, app), x),
+		c.Eq(c.App("rootOf", RefSort, app), c.App("rootOf", RefSort, x)),
+	}
+	if arity == 2 {
+		facts = append(facts, c.Eq(c.App("indexOf", BV(64), app), bound[1]))
+	}
+	fx.assumeGlobal(c.Forall(bound, c.And(facts...), []*Term{app}))
 }
 
 func (fx *FnExec) elemRef(elemT types.Type, ref, idx *Term) *Term {
@@ -466,8 +499,8 @@ const maxLenBits = 46
 
 func (fx *FnExec) assumeSliceInv(s SliceV) {
 	c := fx.c
-	if s.Ref.open || s.Off.open || s.Len.open || s.Cap.open {
-		return // value read under a quantifier: representation invariants are not instantiated
+	if (s.Ref.open || s.Off.open || s.Len.open || s.Cap.open) && fx.noOpenInv {
+		return // value read under a quantifier: representation invariants not instantiated (contract option)
 	}
 	z := fx.bv64(0)
 	lim := c.BVConst(mask(maxLenBits), 64)
@@ -479,7 +512,7 @@ func (fx *FnExec) assumeSliceInv(s SliceV) {
 
 func (fx *FnExec) assumeStrInv(s StrV) {
 	c := fx.c
-	if s.Arr.open || s.Off.open || s.Len.open {
+	if (s.Arr.open || s.Off.open || s.Len.open) && fx.noOpenInv {
 		return
 	}
 	z := fx.bv64(0)
